@@ -2,6 +2,7 @@ package engine
 
 import (
 	"go/types"
+	"strings"
 
 	"golang.org/x/tools/go/ssa"
 )
@@ -25,6 +26,7 @@ func init() {
 		"strings.TrimPrefix":         mTrimPrefix,
 		"strings.TrimSuffix":         mTrimSuffix,
 		"strings.Index":              mStrIndex,
+		"strings.SplitN":             mSplitN2,
 		"strings.ToUpper":            mUninterpStr("strings.ToUpper"),
 		"strings.ToLower":            mUninterpStr("strings.ToLower"),
 		"strings.TrimSpace":          mUninterpStr("strings.TrimSpace"),
@@ -138,6 +140,29 @@ func mTrimPrefix(f *frame, args []Val, c *ssa.CallCommon, pos string) Val {
 func mTrimSuffix(f *frame, args []Val, c *ssa.CallCommon, pos string) Val {
 	s, p := args[0].S, args[1].S
 	return Val{T: stringT, S: Ite(app("str.suffixof", p, s), app("str.substr", s, "0", app("-", app("str.len", s), app("str.len", p))), s)}
+}
+
+// strings.SplitN(s, sep, 2) with a non-empty constant separator: [s] if sep does not occur,
+// otherwise [before the first occurrence, after it], in a fresh backing array.
+func mSplitN2(f *frame, args []Val, c *ssa.CallCommon, pos string) Val {
+	x := f.x
+	h := x.heap
+	if args[2].S != "2" || !strings.HasPrefix(args[1].S, "\"") || args[1].S == "\"\"" {
+		panic(unsupported("strings.SplitN other than SplitN(s, <non-empty constant>, 2)"))
+	}
+	s, sep := args[0].S, args[1].S
+	i := x.vc.Def("split.i", "Int", app("str.indexof", s, sep, "0"))
+	found := app(">=", i, "0")
+	base := h.newArray(f.st)
+	to := c.Value.Type().(*types.Signature).Results().At(0).Type()
+	sl := h.mkSlice(to, base, "0", Ite(found, "2", "1"), "2")
+	key := elemKey(sliceElem(to), "")
+	sort := h.arrSort(h.arrSort("String"))
+	after := app("+", i, app("str.len", sep))
+	arr := Store(Store("((as const (Array Int String)) \"\")", "0", Ite(found, app("str.substr", s, "0", i), s)),
+		"1", Ite(found, app("str.substr", s, after, app("-", app("str.len", s), after)), "\"\""))
+	h.set(f.st, key, sort, Store(h.get(f.st, key, sort), base, arr))
+	return sl
 }
 
 func mStrIndex(f *frame, args []Val, c *ssa.CallCommon, pos string) Val {
